@@ -1,6 +1,7 @@
 package corr
 
 import (
+	"math"
 	"reflect"
 	"sort"
 )
@@ -115,6 +116,15 @@ func (m *mutator) apply(v reflect.Value, dotted string) {
 		m.what = "uint+1"
 	case reflect.Float32, reflect.Float64:
 		fx, _ := FxOf(v.Float())
+		if v.Kind() == reflect.Float32 && m.mode%4 == 3 {
+			// the neighbouring float32: one ulp away, which above 16384 is more than the tolerance
+			nx := math.Nextafter32(float32(v.Float()), float32(math.Inf(1)))
+			if _, ok := FxOf(float64(nx)); ok {
+				v.SetFloat(float64(nx))
+				m.what = "float32-ulp"
+				break
+			}
+		}
 		switch m.mode % 3 {
 		case 0:
 			fx += 10485 // 10 x tolerance
